@@ -31,9 +31,9 @@ func Time(v any, defaults ...time.Time) (t time.Time) {
 			case int:
 				t = time.Unix(0, int64(tv)).UTC()
 			case uint:
-				t = time.Unix(0, int64(tv)).UTC()
+				t = time.Unix(int64(uint64(tv)/uint64(time.Second)), int64(uint64(tv)%uint64(time.Second))).UTC()
 			case uint64:
-				t = time.Unix(0, int64(tv)).UTC()
+				t = time.Unix(int64(tv/uint64(time.Second)), int64(tv%uint64(time.Second))).UTC()
 			case float32:
 				// Only good to minutes.
 				secs := int64(tv) / 60 * 60
